@@ -90,6 +90,7 @@ def run(chk, repo, tier):
     C02b.run_b8(chk, repo)
     C02b.run_b10(chk, repo)
     C02b.run_b11(chk, repo)
+    C02b.run_b12(chk, repo)
 
     um = repo.module(f'{NM}.update')
     am = repo.module(f'{NM}.advan')
